@@ -148,9 +148,9 @@ def main():
     ids = []
     for x in a:
         if x == "all":
-            ids += sorted(os.path.basename(p) for p in glob.glob(os.path.join(SEEDED, "*")) if os.path.isdir(p))
+            ids += sorted(os.path.basename(p) for p in glob.glob(os.path.join(SEEDED, "*")) if os.path.isdir(p) and not os.path.basename(p).startswith("_"))
         else:
-            ids += sorted(os.path.basename(p) for p in glob.glob(os.path.join(SEEDED, x + "*")) if os.path.isdir(p))
+            ids += sorted(os.path.basename(p) for p in glob.glob(os.path.join(SEEDED, x + "*")) if os.path.isdir(p) and not os.path.basename(p).startswith("_"))
     for sid in ids:
         if mode == "verify":
             m = verify(sid)
